@@ -658,21 +658,37 @@ func inParseMediaType(m *Machine, fr *frame, fn *ssa.Function, a []Value) Value 
 	return Tuple{Str{S: mt}, mp, Iface{}}
 }
 
-// httputil.DumpRequest: nondeterministic — an arbitrary error, or arbitrary dump bytes (<= 3 symbolic bytes).
+// httputil.DumpRequest: nondeterministic — an arbitrary error, or arbitrary dump bytes (<= 3 symbolic
+// bytes); deterministic per (request, body flag) within one path, as the real function is.
 func inDumpRequest(m *Machine, fr *frame, fn *ssa.Function, a []Value) Value {
+	type key struct {
+		p    *Value
+		body bool
+	}
+	if m.dumpCache == nil {
+		m.dumpCache = map[any]Value{}
+	}
+	k := key{a[0].(*Value), a[1].(Bool).B}
+	if v, ok := m.dumpCache[k]; ok {
+		return v
+	}
+	var res Value
 	if m.choose(make([]*Term, 2)) == 1 {
 		m.ndlog = append(m.ndlog, ndEntry{Kind: "choice", Name: "dump_err", N: 1})
-		return Tuple{[]Value(nil), opaqueErr("dump error")}
+		res = Tuple{[]Value(nil), opaqueErr("dump error")}
+	} else {
+		m.ndlog = append(m.ndlog, ndEntry{Kind: "choice", Name: "dump_err", N: 0})
+		l := m.choose(make([]*Term, 4))
+		s := m.newBytes("dump", l)
+		m.ndlog = append(m.ndlog, ndEntry{Kind: "bytes", Name: "dump", N: l, Terms: append([]*Term{}, s.Sym...)})
+		out := make([]Value, l)
+		for i := range out {
+			out[i] = s.at(i)
+		}
+		res = Tuple{out, Iface{}}
 	}
-	m.ndlog = append(m.ndlog, ndEntry{Kind: "choice", Name: "dump_err", N: 0})
-	l := m.choose(make([]*Term, 4))
-	s := m.newBytes("dump", l)
-	m.ndlog = append(m.ndlog, ndEntry{Kind: "bytes", Name: "dump", N: l, Terms: append([]*Term{}, s.Sym...)})
-	out := make([]Value, l)
-	for i := range out {
-		out[i] = s.at(i)
-	}
-	return Tuple{out, Iface{}}
+	m.dumpCache[k] = res
+	return res
 }
 
 // html.EscapeString: concrete -> real; symbolic -> per-byte expansion by forking on the five metacharacters.
